@@ -4,6 +4,24 @@ import JL.Lemmas.TieB
 namespace JL.Tie
 open JL JL.Lemmas.TieB
 
+/-- the nested helper `as_int` -/
+theorem number_eq_as_int (n : Num) : Gen.number_eq.as_int n = ArrOp.asInt n := by
+  unfold Gen.number_eq.as_int ArrOp.asInt
+  cases n with
+  | pos n => simp [rs, Num.asU64]
+  | neg m => simp [rs, Num.asU64, Num.asI64]
+  | flt f =>
+    simp only [lit1e30, fract_eq_zero]
+    generalize h128 : Rs.to_i128 = g
+    simp only [rs, Num.asU64, Num.asI64, Num.toF64]
+    rcases Bool.eq_false_or_eq_true (f.fractIsZero && F64.lt f.abs ArrOp.F1e30) with c | c
+    · have c' := c
+      simp only [Bool.and_eq_true] at c'
+      simp only [Option.filter_some, c]
+      simp [← h128, to_i128_eq_trunc f c'.2]
+    · simp only [Option.filter_some, c]
+      simp
+
 theorem number_eq (a b : Num) : Gen.number_eq a b = ArrOp.numberEq a b := by
   unfold Gen.number_eq ArrOp.numberEq
   rw [number_eq_as_int, number_eq_as_int]
